@@ -102,6 +102,15 @@ class PandasMaterializer(FormulaMaterializer):
         values = self._as_numerical_column(values)
         if drop_rows:
             values = drop_nulls(values, indices=drop_rows)
+        if (
+            isinstance(values, pandas.Series)
+            and pandas.api.types.is_bool_dtype(values.dtype)
+            and values.hasnans
+        ):
+            # Nullable booleans with missing values would otherwise become
+            # object arrays holding `pandas.NA`; missing values are NaN, as for
+            # the nullable integer and float dtypes.
+            values = values.astype(float)
         if spec.output == "sparse":
             array = numpy.array(values)
             if array.dtype == numpy.float16:
